@@ -466,7 +466,150 @@ func runC08(r *ev.Run) {
 		r.Count("histories:with-compaction", int64(min(compactions, 1)))
 		r.Eval(rotations > 0 && flushes > 0 && evictSearch > 0 && removals > 0, ev.Digest(p.String(), background, len(log), ci))
 	})
+	runC08TrainLate(r)
 	runC08Schedules(r)
+}
+
+// runC08TrainLate: a store whose vector template needs training is opened UNTRAINED; documents without a vector
+// (text / metadata only) are acknowledged first, then the application trains through store.Train, then adds vector
+// documents. Everything acknowledged stays visible at every step, also after Flush and cache eviction.
+func runC08TrainLate(r *ev.Run) {
+	r.Cases("train-late", r.Pick(16, 200), func(ci int, rng *rand.Rand) {
+		p := storeParams{VecKind: "ivf", Text: true, Meta: true, Dim: 2 + rng.IntN(3), Metric: allMetrics[rng.IntN(3)], CompactionThreshold: 1000,
+			MemtableSizeLimit: []int64{1 << 20, 700}[rng.IntN(2)], FlushThreshold: 1 << 40, Nlist: 2 + rng.IntN(2), ivfUntrained: true}
+		for i := 0; i < 40; i++ {
+			v := make([]float32, p.Dim)
+			for j := range v {
+				v[j] = float32(rng.NormFloat64())
+			}
+			v[0] += float32(i%p.Nlist) * 6
+			p.ivfTrain = append(p.ivfTrain, v)
+		}
+		dir, err := os.MkdirTemp("", "verif-c08t-*")
+		if err != nil {
+			panic(err)
+		}
+		defer os.RemoveAll(dir)
+		var log []string
+		rep := func(sig, what string) {
+			r.ViolationAt("train-late", ci, sig, p.String()+": "+what, map[string]any{"log": log})
+		}
+		s, err := p.open(dir)
+		if err != nil {
+			rep("store.open-error", err.Error())
+			return
+		}
+		defer s.Close()
+		ids := newIDGen(rng)
+		ids.min = 1 << 24
+		acked, ever := map[uint32]bool{}, map[uint32]bool{}
+		withVec := map[uint32]bool{}
+		trained := false
+		check := func(when string) {
+			// text and metadata see every acknowledged document; the vector query sees those that carry a vector
+			pp := p
+			pp.VecKind = ""
+			a := searchAllModalities(s, pp)
+			if a.Err != nil {
+				rep("store.search-error", when+": "+a.Err.Error())
+				return
+			}
+			if missing, foreign := a.check(acked, ever); len(missing) > 0 || len(foreign) > 0 {
+				rep("store.acknowledged-document-invisible", fmt.Sprintf("%s: missing %v, never added %v", when, missing, foreign))
+			}
+			if len(withVec) > 0 {
+				q := make([]float32, p.Dim)
+				q[0] = 1
+				res, err := s.NewSearch().WithVector(q).WithK(bigK).WithNProbes(p.Nlist).Execute()
+				if err != nil {
+					rep("store.search-error", when+": vector query: "+err.Error())
+					return
+				}
+				got := map[uint32]bool{}
+				for _, x := range res {
+					got[x.ID] = true
+				}
+				for id := range withVec {
+					if !got[id] {
+						rep("store.acknowledged-document-invisible", fmt.Sprintf("%s: document %d (with vector) is not returned by the full-probe vector query", when, id))
+						break
+					}
+				}
+			}
+			// a vector + text query matches every document through its text, whichever part of the store holds it
+			if trained {
+				q := make([]float32, p.Dim)
+				q[0] = 1
+				res, err := s.NewSearch().WithVector(q).WithText("common").WithK(bigK).WithNProbes(p.Nlist).Execute()
+				if err != nil {
+					rep("store.search-error", when+": vector+text query: "+err.Error())
+					return
+				}
+				got := map[uint32]bool{}
+				for _, x := range res {
+					got[x.ID] = true
+				}
+				for _, id := range sortedKeys(acked) {
+					if !got[id] {
+						rep("store.acknowledged-document-invisible", fmt.Sprintf("%s: document %d (vector=%v) is not returned by a vector+text query whose text matches it", when, id, withVec[id]))
+						break
+					}
+				}
+			}
+			r.Count("probes:train-late:"+when, 1)
+		}
+		add := func(vec bool) bool {
+			d := genStoreDoc(rng, p, ids.next(), "t")
+			if !vec {
+				d.Vec = nil
+			}
+			ever[d.ID] = true
+			err := s.AddWithID(d.ID, d.Vec, d.Text, d.Meta)
+			log = append(log, fmt.Sprintf("add %d vec=%v -> %v", d.ID, vec, err))
+			if err != nil {
+				rep("store.add-error", fmt.Sprintf("AddWithID(%d, vector=%v): %v", d.ID, vec, err))
+				return false
+			}
+			acked[d.ID] = true
+			if vec {
+				withVec[d.ID] = true
+			}
+			return true
+		}
+		for i := 0; i < 1+rng.IntN(4); i++ {
+			if !add(false) {
+				return
+			}
+		}
+		if rng.IntN(3) == 0 {
+			s.VerifRotate()
+			log = append(log, "rotate")
+			add(false)
+		}
+		check("before-train")
+		if err := s.Train(p.ivfTrain); err != nil {
+			rep("store.train-error", err.Error())
+			return
+		}
+		log = append(log, "Train -> nil")
+		trained = true
+		check("after-train")
+		for i := 0; i < 2+rng.IntN(5); i++ {
+			if !add(rng.IntN(4) > 0) {
+				return
+			}
+		}
+		check("after-more-adds")
+		if err := s.Flush(); err != nil {
+			rep("store.flush-error", err.Error())
+			return
+		}
+		log = append(log, "Flush -> nil")
+		check("after-flush")
+		s.VerifEvictAllCaches()
+		check("after-evict")
+		r.Eval(true, ev.Digest("train-late", p.String(), len(log), ci))
+	})
 }
 
 func boundaryTie(res []comet.HybridSearchResult, k int) bool {
